@@ -77,6 +77,22 @@ def r2(ctx):
     oc = [n for n in body_walk(g.node) if isinstance(n, ast.Call) and dotted(n.func) == "getattr" and len(n.args) >= 2 and _c(n.args[1]) == "on_catch_all"]
     ok = bool(oc) and all(guarded_by(ctx, g, c, lambda t: False if dotted(t) == HV else None) for c in oc)
     ctx.ob("R2", "DOM", g, "on_catch_all fallback", ok, "on_catch_all is consulted only when no handler was found" if ok else "on_catch_all lookup is not dominated by `not handlers`")
+    # "no handler was found" must be decided after *every* specific source was consulted: any addition to the handler list
+    # outside the fallback branch precedes (dominates) the emptiness test - otherwise a command handled only by an
+    # on_<command> method is also dispatched to the catch-all handlers
+    fv = FuncView.of(g.node)
+    tests = [s for s in statements(g.node) if isinstance(s, ast.If) and any(dotted(n) == HV for n in ast.walk(s.test)) and any(fv.enclosing(c, (ast.If,)) is s or s in fv.ancestors(c) for c in fall + oc)]
+    adds = [s for s in statements(g.node) if (isinstance(s, ast.Expr) and isinstance(s.value, ast.Call) and isinstance(s.value.func, ast.Attribute) and s.value.func.attr in ("append", "extend", "insert") and dotted(s.value.func.value) == HV)
+            or (isinstance(s, (ast.Assign, ast.AugAssign)) and any(dotted(t) == HV for t in (s.targets if isinstance(s, ast.Assign) else [s.target])))]
+    late = []
+    for t in tests:
+        for s in adds:
+            if t in fv.ancestors(s):
+                continue  # inside the fallback branch
+            if cfg.reaches(cfg.node(t), cfg.node(s)):
+                late.append(src(s)[:50])
+    ctx.ob("R2", "DOM", g, "emptiness test after all specific sources", bool(tests) and not late,
+           f"{len(adds)} additions to the handler list; none outside the fallback branch follows the `not {HV}` test" if tests and not late else f"specific handlers added after the fallback decision: {late} (tests found: {len(tests)})")
     first = [c for c in fn_calls(g.node) if isinstance(c.func, ast.Attribute) and c.func.attr == "get" and dotted(c.func.value) == "self.task_map" and c.args and dotted(c.args[0]) == params(g.node)[1]]
     ctx.ob("R2", "AGREE", g, "self.task_map.get(command_id, [])", len(first) == 1, "handlers are looked up under the task's command id")
     # _beacon_loop: one dispatch site
